@@ -66,10 +66,9 @@ theorem numeric_accepts_valid_float (c : NumCheck) (x : Rat) (hr : c.roundToInt 
 
 /-- the string check never rejects an ASCII string the schema admits -/
 theorem string_accepts_valid_ascii (minLen maxLen : Int) (pattern s : String) (h : C06.IsAscii s)
-    (hcr : C06.NoCR pattern)
     (hl : Spec.lengthOK minLen maxLen s = true) (hp : Spec.patternOK pattern s = true) :
     stringPasses minLen maxLen pattern s = true :=
-  (C06.string_check_exact_ascii minLen maxLen pattern s h hcr).mpr ⟨hl, hp⟩
+  (C06.string_check_exact_ascii minLen maxLen pattern s h).mpr ⟨hl, hp⟩
 
 /-- the array check never rejects an array whose length the schema admits -/
 theorem array_accepts_valid (xs : List GoVal) (mn mx : Int) (h : Spec.itemsCountOK mn mx xs.length = true) :
